@@ -95,3 +95,55 @@ META.update({
   note="Optimised BufBitReader::copy_to / BufBitWriter::copy_from obligations are registered separately (see known findings). Rewrites: map_err(..)? desugaring (R6), core::cmp::min -> if/else.",
   design="4/C08"),
 })
+
+META.update({
+ "C10": dict(
+  technique="client obligations on the real dispatch code over the abstract stream (Kani/CBMC, symbolic value per identifier) + native concrete grid over every identifier x mechanism",
+  category="proof",
+  text="Proof, per code identifier and mechanism, for every 64-bit value with symbolic surrounding bits (thorough tier: one Kani obligation per identifier constant; quick tier: representative identifiers): the bits appended, the value decoded and the length computed through Codes::{read,write,len}, ConstCode, FuncCodeReader/Writer/Len, FactoryFuncCodeReader and CodesStats-wrapper equal those of the direct method with the documented parameter. "
+       "A concrete native grid (51 identifiers x 11 values x 5 mechanisms x BE/LE, bounded, not counted as proved) covers every mechanism/identifier pair on every run; unsupported identifiers must be rejected.",
+  note="Dispatch is compared against the direct method on the abstract model (the direct method's own meaning is C03/C04/C06). Enumeration parameters beyond the identifier table are compared on the grid 0..=10 only. Unary/Rice/Golomb values limited to codewords fitting the 256-bit model.",
+  design="4/C10"),
+ "C12": dict(
+  technique="contract harnesses on the real io::Write / io::Read impls from an arbitrary invariant state (Kani/CBMC), slice length fixed per obligation",
+  category="other",
+  text="Bounded contract check: for slice lengths {0,1,7,8,9,17} (each a separate obligation), symbolic slice contents, symbolic writer/reader state (every pending bit offset, every buffer fill level), BE/LE and every backend word size, "
+       "io::Write::write returns Ok(len) and appends exactly the slice's bytes as 8-bit fields in order, io::Read::read returns Ok(len) and fills the slice with the next 8*len stream bits grouped in stream order; the byte-aligned memory-image coincidence follows from the canonical image (C01).",
+  note="Bounded in the slice length (never counted as proved): the chunked loops of write/read are unwound for the chosen lengths, which cross every branch (empty, shorter than a chunk, exactly one chunk, chunk plus remainder, two chunks plus remainder). The quick tier runs u8 and u64 words with lengths 7 and 9; the thorough tier all words and lengths.",
+  design="4/C12"),
+ "C14": dict(
+  technique="client obligations: the real wrappers around the abstract stream, one obligation per wrapper method (Kani/CBMC)",
+  category="proof",
+  text="Proof per wrapper method (fixed-width, unary, gamma/delta/zeta with every table option, omega and the other default codes that reach the stream through peek/skip-after-peek, skip_bits, copy_to/copy_from, flush, bit_pos/set_bit_pos), for symbolic inner stream state and arguments: "
+       "the result and the inner stream after the wrapped call equal those of the unwrapped call, and the counter grows by exactly the bits appended to / consumed from the inner stream; by induction the counter equals the total since creation for every history. DbgBitReader/DbgBitWriter: transparency.",
+  note="Inner stream is the abstract model (any real reader/writer refines it by C01/C02). Unary and copy obligations are bounded by the 256-bit model window. eprintln! output of the Dbg wrappers is not observed.",
+  design="4/C14"),
+ "C15": dict(
+  technique="contract harnesses on CodesStats::{update, update_many, add/+=/sum, best_code, default} (Kani/CBMC) + native concrete run of the dispatch wrapper",
+  category="proof",
+  text="Proof for symbolic statistics values and a symbolic observed value: update adds len_<code>(value) to every tracked total with the documented index-to-parameter map and one to the count; merge operators are field-wise sums (so merge = union, by linearity); best_code returns a tracked code with the minimum total and that total. "
+       "update_many is bounded (value grid, symbolic multiplicity). The concurrent part is not explored: it is reduced to the sequential contract by std::sync::Mutex (trusted) and commutativity of field-wise addition.",
+  note="Quick tier proves the <3,4,3,3,3>-parameter instance, thorough the default <10,..> instance (best_code for the default instance may exceed the time limit and is then reported undecided, exit 2). Thread interleavings are an assumption (Kani has no threads).",
+  design="4/C15"),
+ "C16": dict(
+  technique="full enumeration contract harnesses for identifier conversions and equality classes (Kani/CBMC) + native concrete obligations for Display/FromStr",
+  category="proof",
+  text="Proof: every identifier constant 0..=50 maps to a code that maps back to it; every code with an identifier converts there and back to a code with identical codewords; codes that compare equal belong to the same codeword class, and members of each class write identical bits for every value (symbolic value, BE/LE). "
+       "Display/FromStr round trip and the rejection of malformed text are concrete executions on a variant x parameter grid (bounded, not counted as proved): str reasoning is beyond both verifiers.",
+  note="usize Display/FromStr being inverse for every parameter is an assumed std contract. Unary/Rice class obligations bounded by the 256-bit model.",
+  design="4/C16"),
+ "C18": dict(
+  technique="full-domain contract harnesses on the real io VByte functions and bit-stream VByte codes (Kani/CBMC, loops <= 10 iterations fully unwound with unwinding assertions)",
+  category="proof",
+  text="Proof for every 64-bit value: the std::io VByte writers produce the bytes of the independent spec (= the bit-stream code's bytes, C04), readers invert them, generic entry points select the variant of their endianness parameter; "
+       "completeness: every terminated string of <= 10 symbolic bytes whose value fits 64 bits decodes to a value whose encoding is that string; lengths equal vbyte_bit_len/8 and step at the sums of powers of 128.",
+  note="The io sink/source is a fixed array cursor (ghost); std::io::Error construction paths are stubbed (alloc::fmt::format).",
+  design="4/C18"),
+ "C19": dict(
+  technique="the C01-C08 obligations re-discharged under --features checks / no_copy_impls (Kani/CBMC, Verus with the checks-configuration precondition) + should_panic harnesses for dirty arguments",
+  category="proof",
+  text="Proof that under the checks feature write_bits panics when and only when the value has a bit at or above the width (every word, BE/LE), that every library-issued write (codes, copies, byte writes) satisfies the cleanliness precondition (the abstract model and the Verus trait contract carry `value < 2^n` in this configuration), "
+       "and that the same postconditions hold for the writer, reader, copy and code obligations with each feature set, hence identical observable results. Overflow and debug assertions are failures in both verifiers, which covers the profile dimension.",
+  note="Feature sets: quick = checks-specific obligations + representative writer/copy obligations; thorough = all four feature sets. Release-profile code generation itself is trusted to rustc.",
+  design="4/C19"),
+})
